@@ -56,6 +56,13 @@ pub struct C11Case {
     /// files must be byte-identical
     #[serde(default)]
     pub cli: bool,
+    /// write uncompressed sections (C14's schedule x fault histories with > 8 KiB per chromosome)
+    #[serde(default)]
+    pub uncompressed: bool,
+    /// bigWig converter scenarios: the first value of every chromosome is NaN / inf / -inf by
+    /// rotation (legal stored values; every formatting path must print them alike)
+    #[serde(default)]
+    pub nonfinite: bool,
 }
 
 struct Ctl {
@@ -105,6 +112,8 @@ fn input_text(c: &C11Case) -> String {
                 t.push_str(&format!("{}\t{}\t{}\t{}\n", n, s, s + 4, "L".repeat(c.long_rest)));
             } else if c.bed {
                 t.push_str(&format!("{}\t{}\t{}\te{}_{}\n", n, s, s + 4, ci, i));
+            } else if c.nonfinite && i == 0 {
+                t.push_str(&format!("{}\t{}\t{}\t{}\n", n, s, s + 2, ["NaN", "inf", "-inf"][ci % 3]));
             } else {
                 t.push_str(&format!("{}\t{}\t{}\t{}\n", n, s, s + 2, (ci * 10 + i as usize) as f32 + 0.5));
             }
@@ -119,15 +128,21 @@ fn options(c: &C11Case) -> bigtools::BBIWriteOptions {
     o.block_size = 2;
     o.channel_size = c.chan;
     o.inmemory = c.inmemory;
+    o.compress = !c.uncompressed;
     o.manual_zoom_sizes = Some(vec![2]);
     o
 }
 
 /// One execution of the real writer under the given yield set.  Returns (result, bytes, trace).
 fn execute(c: &C11Case, path: &std::path::Path, yields: &[usize], rt: Rt) -> (Result<(), String>, Vec<u8>, Vec<(&'static str, u64)>) {
+    execute_into(c, path, yields, rt, Sink::new())
+}
+
+/// The same into a given destination (C14 drives fault-injecting and recording sinks under every
+/// explored schedule).
+pub fn execute_into(c: &C11Case, path: &std::path::Path, yields: &[usize], rt: Rt, sink: Sink) -> (Result<(), String>, Vec<u8>, Vec<(&'static str, u64)>) {
     let ctl = Arc::new(Ctl { yields: yields.to_vec(), state: Mutex::new((0, vec![])) });
     set_controller(Some(ctl.clone()));
-    let sink = Sink::new();
     let sizes: std::collections::HashMap<String, u32> = names(c.nchrom).into_iter().map(|n| (n, (3 * c.items + 20).max(20000))).collect();
     let runtime = make_runtime(rt);
     let text = input_text(c);
@@ -470,15 +485,15 @@ impl Check for C11 {
                         if quick && source == Source::SerialFile && (nchrom == 3) {
                             continue;
                         }
-                        v.push(C11Case { bed, nchrom, items: 3, ips, source, two_pass, chan, inmemory, bound: 2, sweep_threads: None, conv: false, long_rest: 0, cli: false });
+                        v.push(C11Case { bed, nchrom, items: 3, ips, source, two_pass, chan, inmemory, bound: 2, sweep_threads: None, conv: false, long_rest: 0, cli: false, uncompressed: false, nonfinite: false });
                     }
                     if source == Source::ParallelFile {
                         // more chromosomes than the parallel source queues at once (4 + 1)
-                        v.push(C11Case { bed, nchrom: 6, items: 2, ips: 1, source, two_pass, chan: 100, inmemory: true, bound: 2, sweep_threads: None, conv: false, long_rest: 0, cli: false });
+                        v.push(C11Case { bed, nchrom: 6, items: 2, ips: 1, source, two_pass, chan: 100, inmemory: true, bound: 2, sweep_threads: None, conv: false, long_rest: 0, cli: false, uncompressed: false, nonfinite: false });
                     }
                     if !quick {
                         // bound 3 on the smallest scenario of each kind
-                        v.push(C11Case { bed, nchrom: 2, items: 2, ips: 1, source, two_pass, chan: 0, inmemory: true, bound: 3, sweep_threads: None, conv: false, long_rest: 0, cli: false });
+                        v.push(C11Case { bed, nchrom: 2, items: 2, ips: 1, source, two_pass, chan: 0, inmemory: true, bound: 3, sweep_threads: None, conv: false, long_rest: 0, cli: false, uncompressed: false, nonfinite: false });
                     }
                 }
             }
@@ -492,17 +507,21 @@ impl Check for C11 {
                 vec![(2, 2, 1, true, 3), (3, 2, 2, false, 3), (4, 1, 6, true, 3), (3, 3, 1, false, 2), (4, 2, 3, true, 2), (4, 2, 16, false, 2)]
             };
             for (nchrom, items, threads, inmemory, bound) in combos {
-                v.push(C11Case { bed, nchrom, items, ips: 2, source: Source::SerialIter, two_pass: false, chan: threads, inmemory, bound, sweep_threads: None, conv: true, long_rest: 0, cli: false });
+                v.push(C11Case { bed, nchrom, items, ips: 2, source: Source::SerialIter, two_pass: false, chan: threads, inmemory, bound, sweep_threads: None, conv: true, long_rest: 0, cli: false, uncompressed: false, nonfinite: false });
             }
+        }
+        // non-finite values through every formatting path of the bigWig converter
+        for (threads, inmemory) in [(2usize, true), (6, false)] {
+            v.push(C11Case { bed: false, nchrom: 3, items: 2, ips: 2, source: Source::SerialIter, two_pass: false, chan: threads, inmemory, bound: 1, sweep_threads: None, conv: true, long_rest: 0, cli: false, uncompressed: false, nonfinite: true });
         }
         // a line longer than every buffer on the way (70 KB), staged in memory and in a file
         for inmemory in [true, false] {
-            v.push(C11Case { bed: true, nchrom: 2, items: 2, ips: 2, source: Source::SerialIter, two_pass: false, chan: 2, inmemory, bound: 1, sweep_threads: None, conv: true, long_rest: 70_000, cli: false });
+            v.push(C11Case { bed: true, nchrom: 2, items: 2, ips: 2, source: Source::SerialIter, two_pass: false, chan: 2, inmemory, bound: 1, sweep_threads: None, conv: true, long_rest: 70_000, cli: false, uncompressed: false, nonfinite: false });
         }
         // layer 3b: the same sweep through the built converter binaries
         for bed in [false, true] {
             for two_pass in [false, true] {
-                v.push(C11Case { bed, nchrom: 8, items: 40, ips: 4, source: Source::SerialFile, two_pass, chan: 100, inmemory: false, bound: 0, sweep_threads: Some(0), conv: false, long_rest: 0, cli: true });
+                v.push(C11Case { bed, nchrom: 8, items: 40, ips: 4, source: Source::SerialFile, two_pass, chan: 100, inmemory: false, bound: 0, sweep_threads: Some(0), conv: false, long_rest: 0, cli: true, uncompressed: false, nonfinite: false });
             }
         }
         // layer 3: configuration sweep on real runtimes (sampling over OS schedules)
@@ -515,7 +534,7 @@ impl Check for C11 {
                             if quick && (t + chan) % 2 == 1 {
                                 continue;
                             }
-                            v.push(C11Case { bed, nchrom: 8, items: 40, ips: 4, source, two_pass, chan, inmemory, bound: 0, sweep_threads: Some(t), conv: false, long_rest: 0, cli: false });
+                            v.push(C11Case { bed, nchrom: 8, items: 40, ips: 4, source, two_pass, chan, inmemory, bound: 0, sweep_threads: Some(t), conv: false, long_rest: 0, cli: false, uncompressed: false, nonfinite: false });
                         }
                     }
                 }
